@@ -5,7 +5,7 @@
    (= l2cap_input), att_output (= l2cap_output, which clips to the negotiated MTU since the fix
    fix/C08-C11-notification-path; the pre-fix witness is corpus/C08/notification_not_clipped.trace). *)
 From BT Require Import Base.ListX AttDb.AttDbModel NQueue.NQueueModel AttSrv.AttSrvModel AttSrv.AttSrvFrame
-  AttSrv.AttSrvNotifSpec AttSrv.AttSrvSpecC08 AttSrv.AttSrvProofsC08 AttSrv.AttSrvNotifExamples.
+  AttSrv.AttSrvNotifSpec AttSrv.AttSrvNotifObs AttSrv.AttSrvSpecC08 AttSrv.AttSrvProofsC08 AttSrv.AttSrvNotifExamples.
 Local Open Scope N_scope.
 
 (* ---- the specification of the client MTU of connection cid along a history of operations: the value of
@@ -70,12 +70,22 @@ Theorem C08_step_follows_specification :
 Proof. exact srv_step_mtu. Qed.
 Print Assumptions C08_step_follows_specification.
 
-(* ---- the trace level statement (the monitor accepts every trace of the model) is NOT proved: clause
-   pdu_exceeds_mtu is the theorem C08_every_pdu_bounded_by_negotiated_mtu, clause mtu_rejected_changed is
-   C08_invalid_exchange_rejected_and_ignored; clause mtu_value (the MTU is also USED: exact lengths of Read
-   Responses and notifications) is tied only. *)
+(* ---- the trace level statement. For EVERY well formed configuration and EVERY operation sequence of any length
+   on any connections whose model trace contains no FAULT (memory safety is C01's property; in particular every
+   l2cap_input got 1 <= length pdu and 23 <= out_size): the executable monitor, restricted to the clauses fault,
+   pdu_exceeds_mtu, mtu_rejected_changed and the answer to a valid Exchange MTU Request (check08_core = check08
+   without the exact-length part of mtu_value), accepts the model's trace. By simulation: the observer's client
+   MTU of every connection is the model's (sim08), AttSrvNotifObs.advance_follows + C08_step_follows_specification. *)
+Theorem C08_monitor_core_accepts_model :
+  forall c ops, wf c -> no_fault (srv_run c (srv_init c) ops) -> monitor08_core c (srv_run c (srv_init c) ops) = None.
+Proof. exact monitor08_core_accepts_model. Qed.
+Print Assumptions C08_monitor_core_accepts_model.
+
+(* the full monitor = check08_core, then check08_exact (the MTU is also USED: a Read Response on a value carries
+   exactly min( size, eff - 1 ) bytes, a notification min( size, eff - 3 )). NOT PROVED for check08_exact (it needs
+   the correspondence handle -> attribute of the observer's table and "stored values keep their size"); tied. *)
 Definition C08_monitor_accepts_model_full : Prop :=
-  forall c ops, wf c -> monitor08 c (srv_run c (srv_init c) ops) = None.
+  forall c ops, wf c -> no_fault (srv_run c (srv_init c) ops) -> monitor08 c (srv_run c (srv_init c) ops) = None.
 
 (* ---- non-vacuity *)
 Example C08_wf_nonvacuous : wf cfg_p4_mtu100 /\ wf cfg_p5_mtu300 /\ wf cfg_n1_mtu23.
@@ -88,8 +98,11 @@ Example C08_notification_clipped_to_negotiated_mtu :
               [OpIn 0 [18; 7; 0; 1; 0] 23; OpNotify true KNotif 1; OpOut 0 100;
                OpIn 0 [2; 64; 0] 100; OpNotify true KNotif 1; OpOut 0 100; OpIn 0 [2; 5; 0] 100; OpIn 0 [2; 64] 100] in
   map (fun x => match snd x with OBytes l => len l | _ => 999 end) tr = [1; 999; 23; 3; 999; 53; 5; 5]
-  /\ monitor08 cfg_p4_mtu100 tr = None.
-Proof. split; vm_compute; reflexivity. Qed.
+  /\ monitor08 cfg_p4_mtu100 tr = None /\ monitor08_core cfg_p4_mtu100 tr = None /\ no_fault tr.
+Proof.
+  split; [vm_compute; reflexivity|]. split; [vm_compute; reflexivity|]. split; [vm_compute; reflexivity|].
+  repeat constructor; discriminate.
+Qed.
 
 (* the monitor rejects the behaviour before the fix (53 byte notification at MTU 23) and the other clauses *)
 Example C08_monitor_rejects_unclipped_notification :
